@@ -37,6 +37,7 @@ type loopCtx struct {
 	discover    *discoverAcc
 	base        *State
 	entryPos    map[int]*Term
+	entrySt     *State
 }
 
 type discoverAcc struct {
@@ -158,6 +159,7 @@ func (x *Exec) loopCut(fr *Frame, st *State, call *ssa.Call, b *ssa.BasicBlock, 
 		return abortOut(st, "LoopInv outside a loop in %s", fr.fn)
 	}
 	ord, _ := x.val(fr, call.Call.Args[0]).IntVal()
+	ord %= 1000
 	invClo := x.val(fr, call.Call.Args[1])
 	decClo := x.val(fr, call.Call.Args[2])
 	name := fmt.Sprintf("%s/loop#%d", fr.fn.String(), ord)
@@ -170,6 +172,7 @@ func (x *Exec) loopCut(fr *Frame, st *State, call *ssa.Call, b *ssa.BasicBlock, 
 		fr.loopsActive[call] = lc
 	}
 	if lc.entryPos == nil {
+		lc.entrySt = st.clone()
 		lc.entryPos = map[int]*Term{}
 		for k, v := range st.iterPos {
 			lc.entryPos[k] = v
@@ -196,7 +199,7 @@ func (x *Exec) loopCut(fr *Frame, st *State, call *ssa.Call, b *ssa.BasicBlock, 
 			f2 := fr.clone()
 			s2 := st.clone()
 			x.havocLoop(f2, s2, li, acc)
-			lc2 := &loopCtx{info: li, phase: 3, discover: acc, base: s2.clone(), entryPos: lc.entryPos}
+			lc2 := &loopCtx{info: li, phase: 3, discover: acc, base: s2.clone(), entryPos: lc.entryPos, entrySt: lc.entrySt}
 			f2.loopsActive = cloneLoops(fr.loopsActive)
 			f2.loopsActive[call] = lc2
 			f2.prev = nil
@@ -244,7 +247,7 @@ func (x *Exec) loopCut(fr *Frame, st *State, call *ssa.Call, b *ssa.BasicBlock, 
 			return abortOut(st, "%s: %s", name, why)
 		}
 		x.side = append(x.side, SideOblig{Name: name + "/invariant-preserved", PC: x.pcOf(st), Goal: inv})
-		if m := evalMeasure(st); m != nil && lc.measure != nil {
+		if m := evalMeasure(st); m != nil && lc.measure != nil && lc.measure != c.IntLit(-1) {
 			x.side = append(x.side, SideOblig{Name: name + "/decreases", PC: x.pcOf(st), Goal: c.And(c.Cmp("<=", c.IntLit(0), lc.measure), c.Cmp("<", m, lc.measure))})
 		}
 		return nil
